@@ -72,6 +72,53 @@ let kind_of = function
   | "LeToCpu" -> KLeToCpu | "BeToCpu" -> KBeToCpu | _ -> failwith "kind"
 let width_of = function "16" -> W16 | "32" -> W32 | "64" -> W64 | _ -> failwith "width"
 
+(* histories over several buffers: the state lives here, every step is a call of the extracted model / reference *)
+let history spec bufs ops =
+  let st = Array.of_list (List.map buf_of_hex (SS.split_on_char ',' bufs)) in
+  let out = Buffer.create 256 in
+  let hexb b = hex_of_buf b in
+  List.iter (fun op ->
+    let f = Array.of_list (SS.split_on_char ':' op) in
+    let nf = Array.length f in
+    let tok =
+      try
+        if not spec then begin
+          let k = int_of_string f.(2) in
+          let arg i = if nf > i then n_of_hex f.(i) else N0 in
+          match f.(0) with
+          | "g" -> (match m_getter (coq_string f.(1)) (Some st.(k)) (N0 :: (if nf > 3 then [arg 3] else [])) with
+                    | RVal v -> "v" ^ hex_of_n v | r -> show r)
+          | "s" -> (match m_setter (coq_string f.(1)) (Some st.(k)) (N0 :: (if nf > 4 then [arg 3; arg 4] else [arg 3])) with
+                    | RBuf (Some b) -> st.(k) <- b; "b" ^ hexb b | r -> show r)
+          | "i" -> (match m_init (coq_string f.(1)) (Some st.(k)) with
+                    | RBuf (Some b) -> st.(k) <- b; "b" ^ hexb b | r -> show r)
+          | "l" -> let r = if nf > 5 then f.(5) else "x" in
+                   let res = if r = "-" || r = "x" then None else Some (n_of_hex r) in
+                   (match m_legacy (coq_string f.(1)) (Some st.(k)) [N0; arg 3; arg 4] res with
+                    | LR (ok, p, x) ->
+                        (match p with Some b -> st.(k) <- b | None -> ());
+                        Printf.sprintf "r%s,%s,%s" (if ok then "0" else "E") (hexb st.(k))
+                          (match x with None -> r | Some v -> hex_of_n v)
+                    | LOob -> "OOB" | LUnmod -> "UNMOD" | LNoSuch -> "NOSUCH")
+          | _ -> "BADOP"
+        end else begin
+          (* reference: g:fmt:field:k | s:fmt:field:k:v | i:fmt:k *)
+          match f.(0) with
+          | "g" -> let k = int_of_string f.(3) in
+                   (match s_get (coq_string f.(1)) (coq_string f.(2)) st.(k) with RVal v -> "v" ^ hex_of_n v | r -> show r)
+          | "s" -> let k = int_of_string f.(3) in
+                   (match s_set (coq_string f.(1)) (coq_string f.(2)) st.(k) (n_of_hex f.(4)) with
+                    | RBuf (Some b) -> st.(k) <- b; "b" ^ hexb b | r -> show r)
+          | "i" -> let k = int_of_string f.(2) in
+                   (match s_init (coq_string f.(1)) st.(k) with RBuf (Some b) -> st.(k) <- b; "b" ^ hexb b | r -> show r)
+          | _ -> "BADOP"
+        end
+      with _ -> "EXC" in
+    Buffer.add_string out tok; Buffer.add_char out ' ') ops;
+  Buffer.add_string out "F ";
+  Buffer.add_string out (SS.concat "," (Array.to_list (Array.map hexb st)));
+  Buffer.contents out
+
 let handle (ext : SS.t list -> SS.t option) line =
   let t = List.filter (fun x -> x <> "") (SS.split_on_char ' ' line) in
   match t with
@@ -95,6 +142,8 @@ let handle (ext : SS.t list -> SS.t option) line =
              (match p with None -> "-" | Some bb -> hex_of_buf bb)
              (match x with None -> r | Some v -> hex_of_n v)
        | LOob -> "OOB" | LUnmod -> "UNMOD" | LNoSuch -> "NOSUCH")
+  | "Q" :: bufs :: ops -> history false bufs ops
+  | "SQ" :: bufs :: ops -> history true bufs ops
   | ["H"; br; k; w; x] -> show (m_helper (br = "BE") (kind_of k) (width_of w) (n_of_hex x))
   | _ -> (match ext t with Some r -> r | None -> "BADCMD")
 
